@@ -20,10 +20,13 @@ REQUIRED = [
 ]
 RULE = ('datasets of every convention on sheared, non-symmetric integer lattices (so a j/i transposition changes '
         'every polygon), with and without holes, with tagged variables (incl. missing values) on every grid kind, '
-        '0-2 extra dimensions, every dimension order. Compared with the model: full polygon list, face centres, '
+        '0-2 extra dimensions, every dimension order. UGRID face-node tables walk every layout: face_dimension attribute '
+        'written / left out (faces-first only), stored transposed, fewer / as many / more faces than the table is wide '
+        '(tiny and clipped meshes, padded tables). Compared with the model: full polygon list, face centres, '
         'ravel of every variable, select_index at sampled linear indexes of every grid kind. Oracle, cell by cell: '
-        'ravel(v)[.., n] == select_index(wind_index(n))[v]; polygon n is built from cell n own coordinates; '
-        'face centre n belongs to cell n; STRtree hits of an interior point of cell n contain n. '
+        'every grid has exactly as many positions as the dataset has cells/nodes/edges; ravel(v)[.., n] == select_index(wind_index(n))[v] '
+        '(neither may raise); as many polygons as cells; polygon n is built from cell n own coordinates; '
+        'face centre n belongs to cell n; STRtree hits of an interior point of cell n are the ground-truth cells containing it. '
         'Non-trivial: dataset with a hole or non-square shape or >=1 extra dimension; distinct by (recipe, variable, n).')
 TRUSTED = ['shapely.STRtree.query returns the positions, in the array it was built from, of the intersecting non-None entries (checked on every case)']
 ASSUMPTIONS = ['UGRID face centres without stored face coordinates are GEOS centroids: only their membership in the cell is checked']
@@ -59,11 +62,31 @@ def examine(ctx, recipe, items) -> None:
     raw = built.polys
     vbits = S.geos_valid_bits(raw)
     kept = [q if (q is not None and vbits[n] == '1') else None for n, q in enumerate(raw)]
+    # every grid has as many positions as the dataset has cells / nodes / edges of that kind
+    kind_objs = {getattr(k, 'value', k): k for k in c.grid_kinds}
+    for kname, (gdims, gshape) in built.grids.items():
+        want = int(np.prod(gshape))
+        try:
+            got = int(c.grid_size[kind_objs[kname]])
+        except Exception as e:
+            ctx.oracle_fail('grid-size-wrong', {**desc, 'kind': kname},
+                            f'grid_size of the {kname} grid: {type(e).__name__}: {e}; the dataset has {want} of them')
+            continue
+        if got != want:
+            ctx.oracle_fail('grid-size-wrong', {**desc, 'kind': kname},
+                            f'the {kname} grid has {got} positions, the dataset has {want} of them')
     # polygons in linear order
     line = f"polys {S.polys_args(built)} valid={vbits} nob=1"
-    items.append((line, S.impl_polys_out(c, with_bounds=False), {'recipe': recipe, 'op': line}))
-    polys = c.polygons
-    for n, (p, q) in enumerate(zip(polys, kept)):
+    try:
+        pout = S.impl_polys_out(c, with_bounds=False)
+        polys = list(c.polygons)
+    except Exception as e:
+        pout, polys = 'ERR', None
+        ctx.oracle_fail('polygons-raise', desc, f'polygons of a well-formed dataset: {type(e).__name__}: {e}')
+    items.append((line, pout, {'recipe': recipe, 'op': line}))
+    if polys is not None and len(polys) != len(raw):
+        ctx.oracle_fail('polygon-count', desc, f'{len(polys)} polygons for {len(raw)} cells')
+    for n, (p, q) in enumerate(zip(polys or [], kept)):
         ok = (p is None) == (q is None) and (p is None or S.impl_ring(p) == util.expected_ring(q))
         if not ok:
             ctx.oracle_fail('polygon-not-of-its-cell', {**desc, 'cell': n},
@@ -108,22 +131,28 @@ def examine(ctx, recipe, items) -> None:
                     if not poly.buffer(1e-9).contains(shapely.Point(x, y)) and poly.convex_hull.buffer(1e-9).contains(shapely.Point(x, y)) is False:
                         ctx.oracle_fail('centre-not-of-its-cell', {**desc, 'cell': n}, f'face centre {n} = ({x}, {y}) is outside the hull of cell {n}')
                         break
-    # spatial index positions
-    tree = c.strtree
+    # spatial index positions: the hits of an interior point of cell n are exactly the cells (of the generator's
+    # ground truth) that contain the point, by their own linear position
+    try:
+        tree = c.strtree
+    except Exception as e:
+        tree = None
+        ctx.oracle_fail('strtree-raises', desc, f'spatial index of a well-formed dataset: {type(e).__name__}: {e}')
+    truth = [None if q is None else shapely.Polygon([(float(a), float(b)) for a, b in q]) for q in kept]
     for n in rng.sample(range(len(raw)), min(len(raw), 6)):
-        q = kept[n]
-        if q is None:
+        if truth[n] is None or tree is None:
             continue
-        poly = shapely.Polygon([(float(a), float(b)) for a, b in q])
-        pt = poly.representative_point()
-        hits = sorted(int(h) for h in tree.query(pt, predicate='intersects'))
-        brute = sorted(k for k, p in enumerate(polys) if p is not None and p.intersects(pt))
+        pt = truth[n].representative_point()
+        try:
+            hits = sorted(int(h) for h in tree.query(pt, predicate='intersects'))
+        except Exception as e:
+            hits = [f'{type(e).__name__}: {e}']
+        brute = sorted(k for k, p in enumerate(truth) if p is not None and p.intersects(pt))
         ctx.evaluated()
         if hits != brute or n not in hits:
             ctx.oracle_fail('strtree-position-not-linear-index', {**desc, 'cell': n, 'point': [pt.x, pt.y]},
                             f'STRtree hits {hits} for an interior point of cell {n}; brute force gives {brute}')
     # data
-    kind_objs = {getattr(k, 'value', k): k for k in c.grid_kinds}
     for name, info in built.vars.items():
         if info.kind is None:
             continue
@@ -134,8 +163,10 @@ def examine(ctx, recipe, items) -> None:
         try:
             flat = c.ravel(da, linear_dimension='index')
             fout = arr_str(flat)
-        except Exception:
+        except Exception as e:
             flat, fout = None, 'ERR'
+            ctx.oracle_fail('ravel-raises', {**desc, 'var': name},
+                            f'ravel of {name} {dict(da.sizes)}, defined on the {info.kind} grid {dict(zip(gdims, gshape))}: {type(e).__name__}: {e}')
         items.append((rl, fout, {'recipe': recipe, 'op': rl}))
         size = int(np.prod(gshape))
         nontriv = any(q is None for q in raw) or len(info.dims) > len(gdims) or (len(gshape) == 2 and gshape[0] != gshape[1])
@@ -149,6 +180,8 @@ def examine(ctx, recipe, items) -> None:
                 pout = arr_str(picked)
             except Exception as e:
                 picked, pout = None, 'ERR'
+                ctx.oracle_fail('select-raises', {**desc, 'var': name, 'n': n},
+                                f'select_index(wind_index({n}, {info.kind})) [{name}] on a grid of {size} positions: {type(e).__name__}: {e}')
             items.append((sl, pout, {'recipe': recipe, 'op': sl, 'var': name, 'n': n}))
             if nontriv:
                 ctx.nontrivial((str(recipe), name, n))
@@ -163,21 +196,74 @@ def examine(ctx, recipe, items) -> None:
         ctx.count(f'var:{conv}:{info.kind}')
 
 
-def make_recipe(ctx, k):
+# How a UGRID file lays out its face-node table, walked systematically (not drawn): is the optional
+# `face_dimension` attribute written (it may only be left out when the table is stored faces-first), is the table
+# stored transposed, and how the number of faces compares with the width of the table (a mesh clipped to a handful of
+# cells has fewer faces than nodes per face; a square table says nothing about which axis is which).
+UGRID_LAYOUTS = [(declared, transposed, shape)
+                 for shape in ('lt', 'eq', 'gt')
+                 for declared, transposed in ((False, False), (True, False), (True, True))]
+
+
+def table_shape(recipe) -> str:
+    nface = len(recipe['faces'])
+    width = max(len(f) for f in recipe['faces']) + recipe.get('enc', {}).get('pad', 0)
+    return 'lt' if nface < width else 'eq' if nface == width else 'gt'
+
+
+def ugrid_recipe(ctx, layout):
+    """a random mesh whose face-node table has the given layout"""
     rng = ctx.rng
-    conv = G.CONVS[k % len(G.CONVS)]
-    kw = {}
+    declared, transposed, shape = layout
+    recipe = None
+    for _ in range(40):
+        size = {'max_w': 2, 'max_h': 2} if shape == 'lt' else {'max_w': 3, 'max_h': 2}
+        recipe = G.random_recipe(rng, 'ugrid', ctx.tier, coords_as='vars', face_coords=rng.choice([None, 'vars']),
+                                 transposed=transposed, **size)
+        if shape != 'lt' and len(recipe['faces']) > 3 and rng.random() < 0.5:
+            # a few cells cut out of a larger mesh (nodes that no face uses any more stay in the file)
+            keep = sorted(rng.sample(range(len(recipe['faces'])), rng.randint(3, len(recipe['faces']))))
+            recipe['faces'] = [recipe['faces'][k] for k in keep]
+        width = max(len(f) for f in recipe['faces'])
+        nface = len(recipe['faces'])
+        if shape == 'eq' and nface > width and nface - width <= 2:
+            recipe['enc']['pad'] = nface - width       # a table wider than the widest face needs
+        elif shape == 'lt' and rng.random() < 0.2:
+            recipe['enc']['pad'] = 1
+        if table_shape(recipe) == shape:
+            break
+    recipe['enc']['face_dim_declared'] = declared
+    return recipe
+
+
+_LAYOUT_AT = None
+
+
+def make_recipe(ctx, k):
+    global _LAYOUT_AT
+    rng = ctx.rng
+    n = len(G.CONVS)
+    # every other round of the conventions is followed by one more UGRID case: all nine layouts of the face-node
+    # table turn up in any 9 consecutive UGRID cases
+    conv = 'ugrid' if k % (2 * n + 1) == 2 * n else G.CONVS[(k % (2 * n + 1)) % n]
     if conv == 'ugrid':
-        kw = {'max_w': 2, 'max_h': 2, 'coords_as': 'vars', 'face_coords': rng.choice([None, 'vars'])}
+        if _LAYOUT_AT is None:
+            _LAYOUT_AT = rng.randrange(len(UGRID_LAYOUTS))
+        _LAYOUT_AT += 4            # (4 is coprime to 9: neighbouring cases differ in both respects)
+        layout = UGRID_LAYOUTS[_LAYOUT_AT % len(UGRID_LAYOUTS)]
+        recipe = ugrid_recipe(ctx, layout)
+        ctx.count(f"ugrid-table:{'declared' if recipe['enc']['face_dim_declared'] else 'undeclared'}:"
+                  f"{'transposed' if recipe['enc']['transposed'] else 'faces-first'}:{table_shape(recipe)}")
     else:
-        kw = {'max_n': 4}
-    recipe = G.random_recipe(rng, conv, ctx.tier, **kw)
+        recipe = G.random_recipe(rng, conv, ctx.tier, max_n=4)
     return G.attach_vars(rng, recipe, n_vars=3, max_extra=2, with_nan=True)
 
 
 def run(ctx) -> None:
+    global _LAYOUT_AT
+    _LAYOUT_AT = None
     items: list = []
-    for k in range(ctx.budget(40, 250)):
+    for k in range(ctx.budget(55, 330)):
         recipe = make_recipe(ctx, k)
         ctx.guarded(lambda: examine(ctx, recipe, items), {'recipe': recipe})
     if ctx.searching and ctx.driver is None:
